@@ -207,6 +207,40 @@ pub proof fn axiom_vec_len<T>(v: Vec<T>)
         span == 0 || entries == 0 ==> !r,     //#empty_is_never_dense
 //@end
 
+/// R13 helpers (A-STD): a snapshot of a map's keys, each key once; the value of a key known to be present
+#[verifier::external_body]
+pub fn map_keys_snapshot<K: Copy + Eq + std::hash::Hash, V>(m: &HashMap<K, V>) -> (r: Vec<K>)
+    ensures
+        forall|i: int| 0 <= i < r@.len() ==> m@.contains_key(#[trigger] r@[i]),
+        forall|i: int, j: int| 0 <= i < j < r@.len() ==> r@[i] != r@[j],
+        forall|k: K| m@.contains_key(k) ==> r@.contains(k),
+{ m.keys().copied().collect() }
+#[verifier::external_body]
+pub fn map_get_present<'a, K: Eq + std::hash::Hash, V>(m: &'a HashMap<K, V>, k: &K) -> (r: &'a V)
+    requires m@.contains_key(*k)
+    ensures *r == m@[*k]
+{ m.get(k).unwrap() }
+pub proof fn lemma_shown_mono<T>(s: Seq<(usize, T)>, p: (usize, T))
+    ensures
+        forall|j: usize| was_shown(s, j) ==> #[trigger] was_shown(s.push(p), j),
+        was_shown(s.push(p), p.0),
+{
+    assert forall|j: usize| was_shown(s, j) implies #[trigger] was_shown(s.push(p), j) by {
+        let i = choose|i: int| 0 <= i < s.len() && (#[trigger] s[i]).0 == j;
+        assert(s.push(p)[i].0 == j);
+    }
+    assert(s.push(p)[s.len() as int].0 == p.0);
+}
+/// the consumer of for_each (the real parameter is an FnMut closure taken by value; see the //@replace lines of for_each)
+pub trait RowVisitor<T> {
+    spec fn seen(&self) -> Seq<(usize, T)>;
+    fn call(&mut self, idx: usize, v: &T)
+        ensures final(self).seen() == old(self).seen().push((idx, *v));
+}
+/// the calls made since `before`
+pub open spec fn shown_since<T>(before: Seq<(usize, T)>, now: Seq<(usize, T)>) -> Seq<(usize, T)> { now.skip(before.len() as int) }
+pub open spec fn was_shown<T>(s: Seq<(usize, T)>, j: usize) -> bool { exists|i: int| 0 <= i < s.len() && (#[trigger] s[i]).0 == j }
+
 impl<T: Clone + Default> ColumnData<T> {
     /// representation invariant
     pub open spec fn wf(&self) -> bool {
@@ -257,6 +291,86 @@ impl<T: Clone + Default> ColumnData<T> {
         self.wf(),
 //@ensures
         r == self.size(),   //#len_is_size
+//@end
+
+//@fn ColumnData::for_each
+//@replace "mut visit: impl FnMut(usize, &T)" => "visit: &mut impl RowVisitor<T>" :: the FnMut visitor is taken by value and its effect lives in what it captured; passed by &mut as a trait with a ghost record of its calls, so that the contract can say which rows it was shown
+//@replaceall "visit(" => "visit.call(" :: same
+//@requires
+        self.wf(),
+//@ensures
+        shown_since(old(visit).seen(), final(visit).seen()).len() + old(visit).seen().len() == final(visit).seen().len()
+            && final(visit).seen().take(old(visit).seen().len() as int) == old(visit).seen(),      //#earlier_calls_untouched
+        forall|i: int| 0 <= i < shown_since(old(visit).seen(), final(visit).seen()).len() ==>
+            self.at((#[trigger] shown_since(old(visit).seen(), final(visit).seen())[i]).0) == Some(shown_since(old(visit).seen(), final(visit).seen())[i].1),      //#shows_only_stored_rows_with_their_values
+        forall|j: usize| (#[trigger] self.at(j)) is Some ==> was_shown(shown_since(old(visit).seen(), final(visit).seen()), j),      //#shows_every_stored_row
+        forall|a: int, b: int| 0 <= a < b < shown_since(old(visit).seen(), final(visit).seen()).len() ==>
+            (#[trigger] shown_since(old(visit).seen(), final(visit).seen())[a]).0 != (#[trigger] shown_since(old(visit).seen(), final(visit).seen())[b]).0,      //#shows_no_row_twice
+//@atstart
+        let ghost seen0 = visit.seen();
+//@loop 1 keys=ks
+                invariant
+                    self.wf(), *self == ColumnData::Sparse(*m), seen0 == old(visit).seen(),
+                    0 <= ks_i <= ks@.len(),
+                    forall|i: int| 0 <= i < ks@.len() ==> m@.contains_key(#[trigger] ks@[i]),
+                    forall|i: int, j: int| 0 <= i < j < ks@.len() ==> ks@[i] != ks@[j],
+                    forall|k: usize| m@.contains_key(k) ==> ks@.contains(k),
+                    visit.seen().len() == seen0.len() + ks_i,      //#one_call_per_key_so_far
+                    visit.seen().take(seen0.len() as int) == seen0,      //#earlier_calls_untouched
+                    forall|i: int| 0 <= i < ks_i ==> (#[trigger] visit.seen()[seen0.len() + i]) == (ks@[i], m@[ks@[i]]),      //#shown_the_entries_of_the_keys_so_far
+                decreases ks@.len() - ks_i
+//@loop 2
+                invariant
+                    self.wf(), seen0 == old(visit).seen(),
+                    self matches ColumnData::Dense { base: b2, values: v2, present: p2, .. } && b2 == base && v2 == values && p2 == present,
+                    visit.seen().len() >= seen0.len(),
+                    visit.seen().take(seen0.len() as int) == seen0,      //#earlier_calls_untouched
+                    forall|i: int| 0 <= i < visit.seen().len() - seen0.len() ==> ({
+                        let e = #[trigger] visit.seen()[seen0.len() + i];
+                        *base <= e.0 && e.0 - *base < slot && bit_at(present@, (e.0 - *base) as int) && e.1 == values@[(e.0 - *base) as int] }),      //#shown_only_set_slots_below
+                    forall|s: int| 0 <= s < slot && bit_at(present@, s) ==> was_shown(shown_since(seen0, visit.seen()), (*base + s) as usize),      //#shown_every_set_slot_below
+                    forall|a: int, b: int| 0 <= a < b < visit.seen().len() - seen0.len() ==>
+                        (#[trigger] visit.seen()[seen0.len() + a]).0 < (#[trigger] visit.seen()[seen0.len() + b]).0,      //#shown_in_increasing_row_order
+//@before "visit.call(base + slot"
+                        let ghost s_before = shown_since(seen0, visit.seen());
+//@after "visit.call(base + slot"
+                        proof {
+                            let p = ((*base + slot) as usize, values@[slot as int]);
+                            assert(shown_since(seen0, visit.seen()) =~= s_before.push(p));
+                            lemma_shown_mono(s_before, p);
+                        }
+//@afterloop 1
+                proof {
+                    let sh = shown_since(seen0, visit.seen());
+                    assert forall|i: int| 0 <= i < sh.len() implies self.at((#[trigger] sh[i]).0) == Some(sh[i].1) by {
+                        assert(sh[i] == visit.seen()[seen0.len() + i]);
+                    }
+                    assert forall|j: usize| (#[trigger] self.at(j)) is Some implies was_shown(sh, j) by {
+                        assert(ks@.contains(j));
+                        let i = choose|i: int| 0 <= i < ks@.len() && ks@[i] == j;
+                        assert(sh[i] == visit.seen()[seen0.len() + i]);
+                    }
+                    assert forall|a: int, b: int| 0 <= a < b < sh.len() implies (#[trigger] sh[a]).0 != (#[trigger] sh[b]).0 by {
+                        assert(sh[a] == visit.seen()[seen0.len() + a]);
+                        assert(sh[b] == visit.seen()[seen0.len() + b]);
+                    }
+                }
+//@afterloop 2
+                proof {
+                    let sh = shown_since(seen0, visit.seen());
+                    assert forall|i: int| 0 <= i < sh.len() implies self.at((#[trigger] sh[i]).0) == Some(sh[i].1) by {
+                        assert(sh[i] == visit.seen()[seen0.len() + i]);
+                    }
+                    assert forall|j: usize| (#[trigger] self.at(j)) is Some implies was_shown(sh, j) by {
+                        let sl = (j - *base) as int;
+                        assert(bit_at(present@, sl));
+                        assert((*base + sl) as usize == j);
+                    }
+                    assert forall|a: int, b: int| 0 <= a < b < sh.len() implies (#[trigger] sh[a]).0 != (#[trigger] sh[b]).0 by {
+                        assert(sh[a] == visit.seen()[seen0.len() + a]);
+                        assert(sh[b] == visit.seen()[seen0.len() + b]);
+                    }
+                }
 //@end
 
 //@fn ColumnData::remove
@@ -560,8 +674,10 @@ impl Column {
     }
     pub open spec fn is_empty_col(&self) -> bool { forall|j: usize| (#[trigger] self.at(j)).is_none() }
 
-    // K-PROMOTE (assumed here; bounded Kani check in unit columnar_kani): promote_to_other walks the column with a
-    // closure that captures `&mut spilled`, which Verus does not support, so its body stays outside Verus.
+    // promote_to_other (ASSUMED, A-PROMOTE): it hands ColumnData::for_each a closure that captures `&mut spilled`, which
+    // Verus does not support, so its body stays outside Verus.  for_each itself -- which rows the closure is shown, with
+    // which values, each once -- IS verified above; what is assumed here is that the four one-line closures insert the
+    // pair they are shown, wrapped in the variant of the column's type.
     #[verifier::external_body]
     fn promote_to_other(&mut self)
         requires old(self).wf()
